@@ -222,6 +222,40 @@ theorem map_one_result_per_chunk (n threads maxChunk : Nat) (f : Nat × Nat → 
     s.taken ++ s.inq ++ s.todo.getD 0 [] = (chunks n (chunkSize n threads maxChunk)).map f :=
   each_op_one_result_one_producer hc hfix ht hr
 
+/-- Quirk recorded in notes/C19.md (outside C19's statement, whose shutdown clause starts "after
+    the queue is closed"): `Map` never closes its private queue.  A Processor whose queue is never
+    closed keeps it open for ever, and its workers leave their loop only through `Stop` (which a
+    worker notices after finishing an operation, not while it waits for one) or a panicking
+    operation — so the workers that are idle when Map returns stay parked in their receive. -/
+theorem unclosed_queue_workers_stay (hfix : c.fixed = true) (ht : 0 < c.threads)
+    (hwc : c.wantClose = false) (hr : Reach (sys c) s) :
+    s.inClosed = false ∧ (0 < nEx s.ws → s.stop = true ∨ s.taken.any Op.isPan = true) := by
+  have hcl : s.inClosed = false := by
+    induction hr with
+    | init => rfl
+    | step hr' hs ih =>
+      have hA := (inv_reach hfix ht _ hr').a
+      have hs' : step c _ _ = some _ := hs
+      cases shape_of_step hfix hA hs' <;> first | exact ih | (rename_i hwc'; rw [hwc] at hwc'; cases hwc')
+  refine ⟨hcl, ?_⟩
+  intro hpos
+  rcases (inv_reach hfix ht s hr).a.exit_why hpos with h | h | h
+  · exact Or.inl h
+  · rw [hcl] at h; cases h.1
+  · exact Or.inr h
+
+open Biogo.Processor in
+/-- … the state Map leaves behind, in the model: both operations processed and collected, `Stop`
+    called, the queue still open: nobody can move, both workers are parked in `recv`, `out` is
+    not closed. -/
+example :
+    let c : Processor.Cfg := Processor.Cfg.single 2 0 1 [.val 1, .val 2] false true
+    let s := runSkip (Processor.sys c) (Processor.init c)
+      ((List.replicate 6 [Actor.producer 0, .worker 0, .worker 1, .collector 0]).flatten ++ [.stopper])
+    (allDelivered s).length = 2 ∧ s.stop = true ∧ s.ws = [.recv, .recv] ∧ s.closes = 0 ∧
+    (∀ a ∈ [Actor.worker 0, .worker 1, .producer 0, .collector 0, .stopper], Processor.step c s a = none) := by
+  decide
+
 end processor
 
 /-! ## Promise -/
